@@ -382,11 +382,12 @@ def alternatives(c: Term, truth: bool) -> List[List[Term]]:
         want = truth if c[1] in ("is", "==") else not truth
         if strip(x)[0] == "ite" or strip(x) == ("const", None) or nonnull(strip(x)):
             return _none_cases(strip(x), want)
-    if c[0] == "cmp" and c[1] in ("in", "not in") and isinstance(c[3], tuple) and c[3][0] in ("tuple", "list", "set") and 0 < len(c[3][1]) <= 8:
-        # membership in a literal container: x == a or x == b / x != a and x != b
+    if c[0] == "cmp" and c[1] in ("in", "not in") and isinstance(c[3], tuple) and c[3][0] in ("tuple", "list", "set", "dict") and 0 < len(c[3][1]) <= 8:
+        # membership in a literal container (for a dict: among its keys): x == a or x == b / x != a and x != b
+        elts = [k for k, _v in c[3][1]] if c[3][0] == "dict" else list(c[3][1])
         if (c[1] == "in") == truth:
-            return [[("cmp", "==", c[2], y)] for y in c[3][1]]
-        return [[("cmp", "!=", c[2], y) for y in c[3][1]]]
+            return [[("cmp", "==", c[2], y)] for y in elts]
+        return [[("cmp", "!=", c[2], y) for y in elts]]
     if c[0] == "cmp":
         return [[c if truth else ("cmp", NEG[c[1]], c[2], c[3])]]
     if c[0] == "ite" and is_const(c[2]) and is_const(c[3]) and isinstance(c[2][1], bool) and isinstance(c[3][1], bool):
